@@ -605,7 +605,7 @@ def run_shard(spec, acc):
         check_case(spec["witness"]["seed"], acc)
         return
     tier, k, n = spec["tier"], spec["shard"], spec["nshards"]
-    total = 1800 if tier == "quick" else 90000
+    total = 4000 if tier == "quick" else 90000
     rng = random.Random("C14/%s/%s" % (spec["seed"], k))
     for j in range(total // n):
         w = check_case(rng.randrange(1 << 48), acc)
